@@ -48,7 +48,14 @@ def _relatives_of_installed():
         rel = ".".join(str(x) for x in _v.parse(cur).release)
     except Exception:
         rel = "0.1"
-    return ["v" + rel, rel + ".post1", "v" + rel + "-1", rel + "+local.build", "1!" + rel, rel + ".0", rel + ".0.0.1", rel + "rc1", rel + ".dev0", rel + ".post1.dev2"]
+    try:
+        parts = [int(x) for x in rel.split(".")] + [0, 0]
+    except ValueError:
+        parts = [0, 1, 0]
+    ma, mi, mc = parts[:3]
+    # the next releases of the installed series and the next series: bug fix, feature and major releases
+    bumps = [f"v{ma}.{mi}.{mc + 1}", f"{ma}.{mi}.{mc + 7}", f"v{ma}.{mi + 1}", f"v{ma}.{mi + 1}.0", f"v{ma + 1}.0", f"{ma + 1}.0.0", f"v{ma}.{mi}.{mc + 1}.post1"]
+    return bumps + ["v" + rel, rel + ".post1", "v" + rel + "-1", rel + "+local.build", "1!" + rel, rel + ".0", rel + ".0.0.1", rel + "rc1", rel + ".dev0", rel + ".post1.dev2"]
 
 
 TAGS = _relatives_of_installed() + ["v0.0.1", "v99.0.0", "v99.0.0-alpha.2", "v99.dev1", "garbage", "", None, 123, "99", "v1.2.3.4.5", "v99.0.0rc1", "continuous-integration-build-nightly", "a" * 64, "release_" * 8, "v" + "9" * 400, "1.0." + "0." * 60 + "1"]
